@@ -59,6 +59,10 @@ pub struct UvObs {
     pub back: Vec<Option<([f64; 2], f64)>>,
     /// per near query: uv_with_tol(p) and then uv_to_3d of that uv
     pub near: Vec<Option<([f64; 2], Option<[f64; 3]>)>>,
+    /// query - change - query: a plain one-triangle mesh appended to the mesh that carries the UV
+    /// map: (append returned Ok, the mesh still reports a UV map, the centre of the new triangle,
+    /// that centre through uv_with_tol and uv_to_3d)
+    pub grown: (bool, bool, [f64; 3], Option<[f64; 3]>),
 }
 
 pub struct PoseObs {
@@ -607,7 +611,30 @@ impl Property for C20 {
                                 ([uvp.x, uvp.y], with_uv.uv_to_3d(&uvp).map(|s| [s.point.x, s.point.y, s.point.z]))
                             }));
                         }
-                        Ok(UvObs { to_3d, back, near })
+                        // a mesh that carries a UV map is asked to take in a mesh without one:
+                        // either it refuses, or every surface point of what it then holds -
+                        // including the new triangle - still goes to UV coordinates and back
+                        let mut grown_mesh = with_uv.clone();
+                        let t0 = pm.tri(0);
+                        let shift = [7.0 * size, 3.0 * size, 5.0 * size];
+                        let tri: Vec<Point3> = t0.iter().map(|p| Point3::new(p[0] + shift[0], p[1] + shift[1], p[2] + shift[2])).collect();
+                        let centre = [
+                            (t0[0][0] + t0[1][0] + t0[2][0]) / 3.0 + shift[0],
+                            (t0[0][1] + t0[1][1] + t0[2][1]) / 3.0 + shift[1],
+                            (t0[0][2] + t0[1][2] + t0[2][2]) / 3.0 + shift[2],
+                        ];
+                        let patch = Mesh::new(tri, vec![[0, 1, 2]], false);
+                        let accepted = grown_mesh.append(&patch).is_ok();
+                        let has_uv = grown_mesh.uv().is_some();
+                        let round = if accepted && has_uv {
+                            grown_mesh
+                                .uv_with_tol(&Point3::new(centre[0], centre[1], centre[2]), 0.01 * size, 4.0, None)
+                                .and_then(|(uvp, _)| grown_mesh.uv_to_3d(&uvp))
+                                .map(|s| [s.point.x, s.point.y, s.point.z])
+                        } else {
+                            None
+                        };
+                        Ok(UvObs { to_3d, back, near, grown: (accepted, has_uv, centre, round) })
                     }));
                 }
             }
@@ -709,6 +736,15 @@ impl Property for C20 {
                         OpResult::Budget(_) => {}
                         OpResult::Done(Err(e)) => out.push(Violation::new("unexpected-error", "UvMapping::new / Mesh::new_with_uv", e.clone(), &[vi])),
                         OpResult::Done(Ok(o)) => {
+                            let (accepted, has_uv, centre, round) = &o.grown;
+                            if *accepted && *has_uv {
+                                stats.bump("probe:uv-mesh-accepted-a-plain-append");
+                                if !round.is_some_and(|p| dist3(p, *centre) <= 1e-6 * size) {
+                                    out.push(Violation::new("uv-round-trip", "Mesh::append + uv_with_tol", format!("a mesh with a UV map accepted a mesh without one and still reports a UV map, but the centre {:?} of the appended triangle comes back from UV coordinates as {:?}", centre, round), &[vi]));
+                                }
+                            } else {
+                                stats.bump("probe:uv-mesh-refused-or-dropped-uv-on-append");
+                            }
                             let uv = layout;
                             // probes near the surface: through UV and back must give the closest
                             // point of the mesh (only judged where that point is unique by a margin
